@@ -256,7 +256,8 @@ class SetAlg:
         if h == "diff":
             return f_and(self.member(e, t[1]), *[f_not(self.member(e, x)) for x in t[2:]])
         if h in ("setlit", "listlit", "tuplelit"):
-            return f_or(*[self.eq_atom(e, x) for x in t[1]])
+            # `{a, b, *S}`: a starred element contributes all elements of S
+            return f_or(*[self.member(e, x[1]) if x[0] == "star" else self.eq_atom(e, x) for x in t[1]])
         if h == "concat":
             return f_or(self.member(e, t[1]), self.member(e, t[2]))
         if h in ("slice", "slice3"):
@@ -269,6 +270,9 @@ class SetAlg:
             r = self._comp_member(e, t[2], t[3])
             if r is not None:
                 return r
+            if len(t[3]) >= 2 and not (isinstance(t[2], tuple) and t[2] and t[2][0] == "%payload"):
+                # {x for s in S for x in f(s)} = ⋃_{s in S} f(s): a comprehension with several generators is a big union
+                return self._member_part(e, ("bigunion", ("comp", "set", ("setlit", (t[2],)), tuple(t[3]))))
         if h == "comp" and t[1] == "dict" and t[2][0] == "kv":
             # membership in a dict = membership among its keys
             return self.member(e, ("comp", "set", t[2][1], t[3]))
